@@ -393,7 +393,7 @@ def c01a(F, R):
     _ownership(F, R, VALUE_FIELDS, "AvailableValuePass", "C01.a")
 
 
-@rule("C02", "C02.b.liveness-ownership", floor=9)
+@rule("C02", "C02.b.liveness-ownership", floor=8)
 def c02b(F, R):
     """liveness facts (live_in, live_out, u_def) are written only by LivenessPass"""
     _ownership(F, R, LIVE_FIELDS, "LivenessPass", "C02.b")
@@ -1406,8 +1406,8 @@ def c01e(F, R):
             R.bad(f"Arith|{v}", f"`{v.lower()} rd, x0, x0` is claimed to produce {c}; RV32IM gives {op}(0, 0) = {want}", loc(ar))
 
 
-@rule("C12", "C12.e.monotone-predecessor-filter", floor=4)
-@rule("C06", "C06.t.monotone-predecessor-filter", floor=4)
+@rule("C12", "C12.e.monotone-predecessor-filter", floor=3)
+@rule("C06", "C06.t.monotone-predecessor-filter", floor=3)
 def c12e(F, R):
     """in the fixed-point loops a neighbour is filtered out of the meet only by membership in a grow-only `visited` set (a filter on the facts themselves is not monotone: the iteration can oscillate forever)"""
     for f in (_avpass_run(F), _livepass_run(F)):
